@@ -15,6 +15,7 @@ is searched for by the `-race` stress of the thorough tier.
 import Restful.Model.Conc
 import Restful.Gen.Facts
 import Restful.Lemmas.Lockset
+import Restful.Lemmas.ConcSound
 import Restful.Lemmas.StateShape
 namespace Restful
 namespace Props
@@ -43,6 +44,78 @@ theorem C12_lock_order_acyclic : acyclic c12.report.orderEdges = true := by deci
 /-! The general theorems about the interleaving semantics (Lemmas/Lockset.lean) are audited with this property: -/
 -- also: Restful.Lockset.lockset_sound
 -- also: Restful.Lockset.no_deadlock
+
+/-! ### from the verdicts of the analysis to the interleaving semantics
+
+Lemmas/ConcSem.lean compiles the facts into the programs of the interleaving semantics:
+`Conc.Traces names items f tr` — `tr` is a complete sequence of acquire / release / access events of
+function `f`, calls unfolded by name resolution to any finite depth (the assumptions of that
+semantics are listed at the head of that file).  Lemmas/ConcSound.lean proves the analysis sound
+w.r.t. it, for ARBITRARY facts: a report without unguarded access and re-entrant acquisition + both
+data-flows at their fixpoint + bracketing ⇒ every trace of every entry point is
+`Lockset.Disciplined` (`Conc.analysis_sound`), and `Lockset.Ordered` for every rank that the
+reported acquired-while-holding edges respect (`Conc.analysis_sound_order`).  The proof covers the
+must-hold data-flow over the call graph (contexts guaranteed by every caller), not only lexically
+guarded accesses.  It needs one fact `check` does not look at — how locks are given back:
+`Conc.bracketed` (a syntactic check; `Conc.check_alone_not_sound` shows that it cannot be dropped:
+`Lock()` paired with `defer RUnlock()` passes `check` and `panicSafe`). -/
+-- also: Restful.Conc.analysis_sound
+-- also: Restful.Conc.analysis_sound_order
+-- also: Restful.Conc.analysis_no_unguarded_access
+-- also: Restful.Conc.analysis_no_deadlock
+-- also: Restful.Conc.check_alone_not_sound
+-- also: Restful.Conc.genTrace_traces
+-- also: Restful.Conc.entryProg_exists
+
+/-- one evaluation of the analysis for the two facts below -/
+theorem C12_shape : (c12.bracketed fnNames items && c12.lexicallyGuarded) = true := by decide +kernel
+
+/-- in every function reachable from the entry points: what the lexical walk drops at the end of a
+    func literal / of the function is what the registered `defer`s release there, explicit
+    releases give back a lexically held lock in the mode it was taken in, and nothing sits in a func
+    literal that runs later -/
+theorem C12_bracketed : c12.bracketed fnNames items = true := ((Bool.and_eq_true _ _).mp C12_shape).1
+
+/-- (information) in the current sources every reachable access has its guard among the LEXICALLY
+    held locks; the contexts guaranteed by callers matter for the lock order only
+    (`routesLock` is taken inside `webServicesLock` three calls below `dispatch`) -/
+theorem C12_lexically_guarded : c12.lexicallyGuarded = true := ((Bool.and_eq_true _ _).mp C12_shape).2
+
+theorem c12_unguarded : c12.report.unguarded = [] := by rw [C12_discipline]
+theorem c12_reentrant : c12.report.reentrant = [] := by rw [C12_discipline]
+theorem c12_rank : ∀ e ∈ c12.report.orderEdges, id e.1 < id e.2 := by
+  rw [C12_discipline]; decide
+
+/-- every complete trace of every serving / mutating entry point of the real facts keeps the lock
+    discipline (guards as in `guardOf`: `routes` by `routesLock`, the container's fields by
+    `webServicesLock`) and takes `webServicesLock` before `routesLock` -/
+theorem C12_system_disciplined (p : Lockset.Prog)
+    (hp : EntryProg fnNames items (servingEntries ++ mutatorEntries) p) :
+    Lockset.Disciplined guardOf [] p = true ∧ Lockset.Ordered id [] p = true :=
+  ⟨analysis_sound fnNames items _ c12_unguarded c12_reentrant C12_fixpoint C12_bracketed p hp,
+   analysis_sound_order fnNames items _ id c12_unguarded c12_reentrant c12_rank C12_fixpoint C12_bracketed p hp⟩
+
+/-- end to end: any number of threads, each serving a request or running Add / Remove / Route /
+    RemoveRoute (any complete trace of the facts), interleaved in any way: in no reachable state do
+    two threads have conflicting accesses to the registration state (same field, at least one
+    write) as their next events -/
+theorem C12_no_unguarded_access (progs : List Lockset.Prog)
+    (hsys : EntrySystem fnNames items (servingEntries ++ mutatorEntries) progs)
+    (σ : Lockset.State) (hreach : Lockset.Reachable (Lockset.init progs) σ) (k k' : Lockset.Kind) :
+    ¬ ∃ t t' x, t ≠ t' ∧ Lockset.nextIs σ t (Lockset.access x k) ∧ Lockset.nextIs σ t' (Lockset.access x k') ∧
+        (k = Lockset.Kind.write ∨ k' = Lockset.Kind.write) :=
+  analysis_no_unguarded_access fnNames items _ c12_unguarded c12_reentrant C12_fixpoint C12_bracketed
+    progs hsys σ hreach k k'
+
+/-- end to end: in every reachable state of that system in which some thread has not finished, some
+    thread can move -/
+theorem C12_no_deadlock (progs : List Lockset.Prog)
+    (hsys : EntrySystem fnNames items (servingEntries ++ mutatorEntries) progs)
+    (σ : Lockset.State) (hreach : Lockset.Reachable (Lockset.init progs) σ)
+    (hunfinished : ∃ (t : Nat) (a : Lockset.Action) (rest : Lockset.Prog), σ.threads[t]? = some (a :: rest)) :
+    ∃ t σ', Lockset.step σ t = some σ' :=
+  analysis_no_deadlock fnNames items _ id c12_unguarded c12_reentrant c12_rank C12_fixpoint C12_bracketed
+    progs hsys σ hreach hunfinished
 
 /-! ### non-vacuity (audit)
 
@@ -145,6 +218,91 @@ example : (∀ p ∈ abba, Disciplined exGuard [] p = true) ∧ ¬ (∀ p ∈ ab
   decide
 
 end C12Example
+
+/-! The derived system of the REAL facts is not empty, and its threads do sit in critical sections
+of different locks at the same time: three threads running generated complete traces of
+`Container.Add`, `WebService.Route` and `Container.dispatch` (the latter unfolds its calls five deep
+and nests `routesLock` inside `webServicesLock`). -/
+namespace C12System
+open Lockset
+
+def trAdd : Prog := genTrace fnNames.length items 1 (fnId fnNames "Container.Add")
+def trRoute : Prog := genTrace fnNames.length items 1 (fnId fnNames "WebService.Route")
+def trDispatch : Prog := genTrace fnNames.length items 6 (fnId fnNames "Container.dispatch")
+def sys : List Prog := [trAdd, trRoute, trDispatch]
+
+theorem sys_entry : EntrySystem fnNames items (servingEntries ++ mutatorEntries) sys := by
+  intro p hp
+  simp only [sys, List.mem_cons, List.not_mem_nil, or_false] at hp
+  rcases hp with rfl | rfl | rfl
+  · exact ⟨"Container.Add", by decide +kernel, by decide +kernel, genTrace_traces _ _ _ _⟩
+  · exact ⟨"WebService.Route", by decide +kernel, by decide +kernel, genTrace_traces _ _ _ _⟩
+  · exact ⟨"Container.dispatch", by decide +kernel, by decide +kernel, genTrace_traces _ _ _ _⟩
+
+/-- the traces are what one expects (stated as sub-sequences, so that a harmless change of the
+    sources does not break them) -/
+example :
+    [.acq 0 .W, .read 0, .write 2, .write 0, .rel 0 .W].isSublist trAdd = true ∧
+    [.acq 1 .W, .read 3, .write 3, .rel 1 .W].isSublist trRoute = true ∧
+    [.acq 0 .R, .acq 1 .R, .read 3, .rel 1 .R, .read 0, .rel 0 .R].isSublist trDispatch = true := by
+  decide +kernel
+
+/-- the generated traces of the nine entry points (calls unfolded two deep) contain tracked
+    accesses, writes, and acquisitions of both locks -/
+example :
+    let trs := (servingEntries ++ mutatorEntries).map (fun e => genTrace fnNames.length items 3 (fnId fnNames e))
+    let count (p : Action → Bool) : Nat := (trs.map (fun tr => (tr.filter p).length)).sum
+    count (fun a => match a with | .read _ => true | .write _ => true | _ => false) ≥ 20 ∧
+    count (fun a => match a with | .write _ => true | _ => false) ≥ 5 ∧
+    count (fun a => match a with | .acq 0 _ => true | _ => false) ≥ 3 ∧
+    count (fun a => match a with | .acq 1 _ => true | _ => false) ≥ 3 := by
+  decide +kernel
+
+/-- the semantics sees the seeded defects of the facts that the analysis rejects above: with the
+    write acquisitions of `webServicesLock` removed, or weakened to read acquisitions, `Add` has a
+    trace that is not disciplined -/
+example :
+    (∃ p, EntryProg fnNames itemsNoWLock (servingEntries ++ mutatorEntries) p ∧ Disciplined guardOf [] p = false) ∧
+    (∃ p, EntryProg fnNames itemsWeakLock (servingEntries ++ mutatorEntries) p ∧ Disciplined guardOf [] p = false) :=
+  ⟨⟨_, ⟨"Container.Add", by decide +kernel, by decide +kernel, genTrace_traces _ _ 0 _⟩, by decide +kernel⟩,
+   ⟨_, ⟨"Container.Add", by decide +kernel, by decide +kernel, genTrace_traces _ _ 0 _⟩, by decide +kernel⟩⟩
+
+/-- `C12_system_disciplined` applies to them -/
+example : ∀ p ∈ sys, Disciplined guardOf [] p = true ∧ Ordered id [] p = true :=
+  fun p hp => C12_system_disciplined p (sys_entry p hp)
+
+/-- `Add` has taken `webServicesLock`, `Route` has taken `routesLock`, `dispatch` has run as far as
+    it gets -/
+def inside : State := runThread ((runSched (init sys) [0, 1]).get (by decide +kernel)) 2 trDispatch.length
+
+theorem inside_reachable : Reachable (init sys) inside :=
+  (runSched_reachable (Option.some_get _).symm).trans (runThread_reachable _ _ _)
+
+/-- two threads inside critical sections of different locks, both about to access a tracked field
+    (different fields); the third — `dispatch` — waits for `webServicesLock` -/
+example :
+    (inside.locks 0).writer = some 0 ∧ (inside.locks 1).writer = some 1 ∧
+    (match inside.threads[0]? with | some (.read 0 :: _) => true | _ => false) = true ∧
+    (match inside.threads[1]? with | some (.read 3 :: _) => true | _ => false) = true ∧
+    (match inside.threads[2]? with | some (.acq 0 .R :: _) => true | _ => false) = true ∧
+    (step inside 2).isNone = true ∧ (step inside 0).isSome = true ∧ (step inside 1).isSome = true := by
+  decide +kernel
+
+/-- the end-to-end corollaries at that state, every hypothesis discharged -/
+example := C12_no_unguarded_access sys sys_entry inside inside_reachable .read .write
+example : ∃ t σ', step inside t = some σ' :=
+  C12_no_deadlock sys sys_entry inside inside_reachable (unfinished_of (t := 2) (by decide +kernel))
+
+/-- the three threads run to completion one after the other, and interleaved (Route inside Add's
+    critical section, then dispatch through both locks) -/
+example :
+    ((runSched (init sys) (List.replicate trAdd.length 0 ++ List.replicate trRoute.length 1 ++
+      List.replicate trDispatch.length 2)).map (·.threads)) = some [[], [], []] ∧
+    ((runSched (init sys) ([0, 0] ++ List.replicate trRoute.length 1 ++ List.replicate (trAdd.length - 2) 0 ++
+      List.replicate trDispatch.length 2)).map (·.threads)) = some [[], [], []] := by
+  decide +kernel
+
+end C12System
 
 /-! The frame condition (Lemmas/StateShape.lean): the code has exactly the state this property's model
     accounts for — no further package-level variable, struct type or field; constants as modelled. -/
